@@ -223,7 +223,11 @@ func (g *G) fill(v reflect.Value, depth int) {
 			return
 		}
 		if ps := g.pool[t]; len(ps) > 0 && g.R.Float64() < g.ShareC {
-			v.Set(ps[g.R.Intn(len(ps))])
+			s := ps[g.R.Intn(len(ps))]
+			if s.Len() > 1 && g.R.Intn(3) == 0 {
+				s = s.Slice(0, 1+g.R.Intn(s.Len()-1)) // a shorter slice over the same array: another list
+			}
+			v.Set(s)
 			return
 		}
 		n := g.length()
